@@ -315,25 +315,7 @@ def run(p, report, tier):
                            detail=("infeasible: " + exc) if exc else f"unbound on the path where: {why}")
 
     # ---- R1.1 ------------------------------------------------------------
-    # index candidates are de-duplicated by check_indices: its result must be the array that is used
-    n_ci = 0
-    for f in p.all_functions():
-        if f.file.startswith("skactiveml/visualization") or "/tests/" in f.file:
-            continue
-        for st in ast.walk(f.node):
-            c = st.value if isinstance(st, (ast.Expr, ast.Assign)) and isinstance(getattr(st, "value", None), ast.Call) else None
-            if c is None or callname(c) != "check_indices":
-                continue
-            uq = next((k.value for k in c.keywords if k.arg == "unique"), c.args[3] if len(c.args) > 3 else None)
-            pure_check = uq is not None and isinstance(uq, ast.Constant) and uq.value in ("check_unique", False)
-            n_ci += 1
-            ok = isinstance(st, ast.Assign) or pure_check
-            report.add("R1.1", f.qual, f"result of {site_id(c, 60)} is used", f"{f.file}:{st.lineno}", ok,
-                       detail="bound to a name" if isinstance(st, ast.Assign) else (
-                           "pure uniqueness check" if pure_check else
-                           "the de-duplicated, sorted index array is discarded: duplicated candidate indices reach the "
-                           "strategies and can be selected twice"))
-    report.analysed["check_indices_sites"] = n_ci
+    check_indices_results(p, report, "R1.1")
     check_clip(p, report)
     for ci, f in pool_query_entities(p):
         check_validate_first(p, report, ci, f)
@@ -857,6 +839,27 @@ def check_exclusion_mechanisms(p, report, funcs, facts):
             partial = False
         ex_overwritten = bool(ex) and not kept
         ex = kept
+        # an auxiliary pool mask (not the operand itself) only excludes when the writes into the
+        # operand are selected by the CURRENT mask: a selector computed from the mask before the
+        # loop and never refreshed inside it is stale after the first pick
+        stale = None
+        loop_bound = {x.id for x in ast.walk(L) if isinstance(x, ast.Name) and isinstance(x.ctx, ast.Store)}
+        for (n, b, k) in list(ex):
+            if k != "M1" or b in ops:
+                continue
+            hoisted = set()
+            for d in ast.walk(f.node):
+                if isinstance(d, ast.Assign) and len(d.targets) == 1 and isinstance(d.targets[0], ast.Name) \
+                        and d.lineno < L.lineno and b in names_in(d.value) and d.targets[0].id not in loop_bound \
+                        and d.targets[0].id != b:
+                    hoisted.add(d.targets[0].id)
+            for m in ast.walk(L):
+                if isinstance(m, ast.Assign) and isinstance(m.targets[0], ast.Subscript) and base_name(m.targets[0]) in ops:
+                    idx = index_names(m.targets[0])
+                    if (idx & hoisted) and b not in idx and not (idx & forward_closure({b}, lvedges) & loop_bound):
+                        stale = (m, sorted(idx & hoisted)[0], b)
+            if stale:
+                ex = [x for x in ex if x != (n, b, k)]
         via_callee = False
         if not ex:
             for st in ast.walk(L):
@@ -893,7 +896,10 @@ def check_exclusion_mechanisms(p, report, funcs, facts):
             ("M3: zero sampling mass at distance-to-selected" if sampling_m3 else ""))
         report.add("R1.4m", ent, construct, f"{f.file}:{S.lineno}", okm,
                    detail=("exclusion mechanism " + mech) if okm else
-                   ("the mask of earlier picks is written into this iteration's own row after the selection: it never "
+                   (f"the operand is filled at positions `{stale[1]}`, computed from the pool mask `{stale[2]}` before the loop and "
+                    f"never refreshed: after the first pick the selector is stale and earlier picks keep a number"
+                    if (stale and not ex) else
+                    "the mask of earlier picks is written into this iteration's own row after the selection: it never "
                     "takes part in a selection" if (late_row and not ex) else
                     "the mask of earlier picks is overwritten by a later store into the same array before the selection"
                     if ex_overwritten else
@@ -921,17 +927,104 @@ def outside_defs(fnode, L):
 
 
 # ---------------------------------------------------------------------------
+def check_indices_results(p, report, rule):
+    """index candidates / annotators are de-duplicated by check_indices: its result must be the array that is used"""
+    n_ci = 0
+    for f in p.all_functions():
+        if f.file.startswith("skactiveml/visualization") or "/tests/" in f.file:
+            continue
+        for st in ast.walk(f.node):
+            c = st.value if isinstance(st, (ast.Expr, ast.Assign)) and isinstance(getattr(st, "value", None), ast.Call) else None
+            if c is None or callname(c) != "check_indices":
+                continue
+            uq = next((k.value for k in c.keywords if k.arg == "unique"), c.args[3] if len(c.args) > 3 else None)
+            pure_check = uq is not None and isinstance(uq, ast.Constant) and uq.value in ("check_unique", False)
+            n_ci += 1
+            ok = isinstance(st, ast.Assign) or pure_check
+            report.add(rule, f.qual, f"result of {site_id(c, 60)} is used", f"{f.file}:{st.lineno}", ok,
+                       detail="bound to a name" if isinstance(st, ast.Assign) else (
+                           "pure uniqueness check" if pure_check else
+                           "the de-duplicated, sorted index array is discarded: duplicated indices reach the "
+                           "strategies: they can be selected twice and are counted twice by the batch-size clip"))
+    report.analysed["check_indices_sites"] = n_ci
+
+
+def helper_resolver(p, f):
+    """Resolve a plain-name call inside f to a project function node."""
+    def resolve(call):
+        if isinstance(call.func, ast.Name):
+            r = p.resolve_name(f.module, call.func.id)
+            if r and r[0] == "func":
+                return r[1].node
+            return None
+        return None
+    return resolve
+
+
 def check_clip(p, report):
     ci = p.get_class("SingleAnnotatorPoolQueryStrategy")
     f = ci.methods.get("_validate_data")
     if f is None:
         raise AnalysisError("SingleAnnotatorPoolQueryStrategy._validate_data vanished")
-    ok, why = has_clip(f.node, "batch_size")
+    ok, why = has_clip(f.node, "batch_size", resolve=helper_resolver(p, f))
     report.add("R1.1", "SingleAnnotatorPoolQueryStrategy._validate_data", "batch_size clipped to number of candidates",
                f"{f.file}:{f.node.lineno}", ok, detail=why)
+    check_clip_bound_counts_rows(report, "R1.1", f, "batch_size")
 
 
-def has_clip(fnode, bname, need_return=True):
+def element_count_operand(e):
+    """`np.size(E)` without axis, `E.size`, `np.prod(E.shape)`, `len(E.ravel())`/`len(E.flatten())`:
+    the number of ELEMENTS of E (rows x columns for a 2-d array), not its number of rows.
+    Returns E or None."""
+    if isinstance(e, ast.Call) and callname(e) in ("int",) and e.args:
+        return element_count_operand(e.args[0])
+    if isinstance(e, ast.Call) and callname(e) in ("size", "np.size", "numpy.size") and e.args \
+            and len(e.args) == 1 and not any(k.arg == "axis" for k in e.keywords):
+        return e.args[0]
+    if isinstance(e, ast.Attribute) and e.attr == "size":
+        return e.value
+    if isinstance(e, ast.Call) and callname(e) in ("prod", "np.prod") and e.args and isinstance(e.args[0], ast.Attribute) \
+            and e.args[0].attr == "shape":
+        return e.args[0].value
+    if isinstance(e, ast.Call) and callname(e) == "len" and e.args and isinstance(e.args[0], ast.Call) \
+            and isinstance(e.args[0].func, ast.Attribute) and e.args[0].func.attr in ("ravel", "flatten"):
+        return e.args[0].func.value
+    return None
+
+
+def clip_bound_names(fnode, bname):
+    out = set()
+    for n in ast.walk(fnode):
+        if isinstance(n, ast.If) and isinstance(n.test, ast.Compare) and bname in names_in(n.test):
+            out |= {x for x in names_in(n.test) if x != bname}
+        if isinstance(n, ast.Assign) and any(isinstance(t, ast.Name) and t.id == bname for t in n.targets) \
+                and isinstance(n.value, ast.Call):
+            for a in n.value.args[:2]:
+                if isinstance(a, ast.Name) and a.id != bname:
+                    out.add(a.id)
+    return out
+
+
+def check_clip_bound_counts_rows(report, rule, f, bname, two_d=("candidates", "X")):
+    """The bound of the batch-size clip counts candidate ROWS: an element count of an
+    array that can be 2-d (feature-row candidates, X) over-counts by the number of
+    features and the clip is lost."""
+    params = set(f.all_param_names())
+    for nm in sorted(clip_bound_names(f.node, bname)):
+        for d in ast.walk(f.node):
+            if isinstance(d, ast.Assign) and any(isinstance(t, ast.Name) and t.id == nm for t in d.targets):
+                bad = None
+                for sub in ast.walk(d.value):
+                    E = element_count_operand(sub)
+                    if E is not None and isinstance(E, ast.Name) and E.id in params and E.id in two_d:
+                        bad = (sub, E.id)
+                report.add(rule, f.qual, f"clip bound `{norm_stmt(d, 60)}` counts rows", f"{f.file}:{d.lineno}", bad is None,
+                           detail="row count" if bad is None else
+                           f"`{ast.unparse(bad[0])}` is the number of ELEMENTS of `{bad[1]}`: for feature-row candidates of "
+                           f"shape (n, d) the bound is n*d and batch sizes between n and n*d are not clipped")
+
+
+def has_clip(fnode, bname, need_return=True, resolve=None):
     """`if a < b: ... b = a` (or `b > a`) followed by a return containing b;
     `a` must be defined from the candidate count on both arms."""
     for n in ast.walk(fnode):
@@ -955,7 +1048,55 @@ def has_clip(fnode, bname, need_return=True):
                         if isinstance(rn, ast.Return) and rn.value is not None and bname in names_in(rn.value) \
                                 and rn.lineno > n.lineno:
                             return True, f"clip `{bname} = {small}` under `{norm_stmt(n.test)}`"
+    # `b = min(b, n)` or `b = helper(b, n, ...)` with helper a project function whose
+    # value is min(first, second)
+    for n in ast.walk(fnode):
+        if isinstance(n, ast.Assign) and any(isinstance(t, ast.Name) and t.id == bname for t in n.targets) \
+                and isinstance(n.value, ast.Call) and len(n.value.args) >= 2 \
+                and any(isinstance(a, ast.Name) and a.id == bname for a in n.value.args[:2]):
+            cn = callname(n.value)
+            is_min = cn == "min" and len(n.value.args) == 2
+            if not is_min and resolve is not None:
+                h = resolve(n.value)
+                is_min = h is not None and _is_min_function(h)
+            if is_min and (not need_return or any(
+                    isinstance(rn, ast.Return) and rn.value is not None and bname in names_in(rn.value)
+                    and rn.lineno > n.lineno for rn in ast.walk(fnode))):
+                return True, f"clip `{norm_stmt(n, 70)}`"
     return False, "no `if n < batch_size: batch_size = n` clip reaching the return"
+
+
+def _is_min_function(h):
+    """Function of (a, b, ...) whose every return is min(a, b): `if b < a: ... return b`
+    followed by `return a` (either orientation), or `return min(a, b)`."""
+    ps = [a.arg for a in h.args.args]
+    if len(ps) < 2:
+        return False
+    a, b = ps[0], ps[1]
+    body = [st for st in h.body if not (isinstance(st, ast.Expr) and isinstance(st.value, ast.Constant))]
+    if len(body) == 1 and isinstance(body[0], ast.Return) and isinstance(body[0].value, ast.Call) \
+            and callname(body[0].value) == "min" and {ast.unparse(x) for x in body[0].value.args} == {a, b}:
+        return True
+    if any(isinstance(n, ast.Name) and isinstance(n.ctx, ast.Store) and n.id in (a, b) for n in ast.walk(h)):
+        return False
+    if len(body) == 2 and isinstance(body[0], ast.If) and not body[0].orelse and isinstance(body[1], ast.Return) \
+            and isinstance(body[0].test, ast.Compare) and len(body[0].test.ops) == 1 \
+            and isinstance(body[0].body[-1], ast.Return):
+        t = body[0].test
+        l, r, op = ast.unparse(t.left), ast.unparse(t.comparators[0]), t.ops[0]
+        small = None
+        if isinstance(op, (ast.Lt, ast.LtE)) and {l, r} == {a, b}:
+            small = l
+        if isinstance(op, (ast.Gt, ast.GtE)) and {l, r} == {a, b}:
+            small = r
+        if small is None:
+            return False
+        big = b if small == a else a
+        inner_ret, outer_ret = body[0].body[-1].value, body[1].value
+        return inner_ret is not None and outer_ret is not None and ast.unparse(inner_ret) == small \
+            and ast.unparse(outer_ret) == big \
+            and not any(isinstance(x, (ast.Return, ast.Raise)) for st in body[0].body[:-1] for x in ast.walk(st))
+    return False
 
 
 def check_validate_first(p, report, ci, f):
